@@ -35,6 +35,10 @@ func (config BridgeConfig) Validate(ac address.Codec) error {
 		return errors.Wrapf(sdkerrors.ErrInvalidRequest, "finalization period must be greater than 0")
 	}
 
+	if config.FinalizationPeriod < time.Duration(0) {
+		return errors.Wrapf(sdkerrors.ErrInvalidRequest, "finalization period must be greater than 0")
+	}
+
 	if config.SubmissionInterval == time.Duration(0) {
 		return errors.Wrapf(sdkerrors.ErrInvalidRequest, "submission interval must be greater than 0")
 	}
@@ -66,6 +70,10 @@ func (config BridgeConfig) ValidateWithNoAddrValidation() error {
 	}
 
 	if config.FinalizationPeriod == time.Duration(0) {
+		return errors.Wrapf(sdkerrors.ErrInvalidRequest, "finalization period must be greater than 0")
+	}
+
+	if config.FinalizationPeriod < time.Duration(0) {
 		return errors.Wrapf(sdkerrors.ErrInvalidRequest, "finalization period must be greater than 0")
 	}
 
